@@ -126,6 +126,17 @@ func (r *real) apply(ws []string) (out string) {
 		if b := val(il.Get(k)); b != a {
 			return a + " but-Get-answers " + b
 		}
+		// iteration over the historical handle (the `stakes`, `stakes/total_power` queries) must agree with the key read
+		itv := "val none"
+		_ = il.IterateReadAllItems(func(it *item) xerrors.XError {
+			if it.K == u(2) {
+				itv = fmt.Sprintf("val %d", it.V)
+			}
+			return nil
+		})
+		if itv != a {
+			return a + " but-Iterate-answers " + itv
+		}
 		// a historical handle is also used as a scratch view (the read-only account handler behind vm_call
 		// writes to it): whatever a reader writes there must stay private to that reader
 		if it, e := il.Get(k); e == nil && it != nil {
